@@ -120,4 +120,21 @@ PROPS = {
              "URI, duplicates) x child order, comments, XML declaration, junk element, missing trailer; distinct by text",
         trusted=["iri-string URI parsing (oracle)", "quick-xml tokenisation"],
     ),
+    "C14": dict(
+        thm=["Bgpfu.Thm.C14"],
+        ops=[("fuzz", [])],
+        level_text="Theorems over EVERY event list (well-formed or not, tokenizer errors and EOF anywhere): every reader "
+                   "loop consumes at least one event per iteration and never needs more than evs.length+1 iterations "
+                   "(readMessage_total, establish_total, reader_loops_bounded), and a message without an rpc-reply root "
+                   "never yields a value. Supported by mutation fuzzing through the real Session (truncation at every "
+                   "byte, splices, flips, duplicated elements, huge numbers, invalid UTF-8, deep nesting) with "
+                   "catch_unwind and watchdogs, compared with the reader model on quick-xml's events.",
+        level_note="The theorem covers the readers over tokenizer events; the byte-level robustness of quick-xml itself and "
+                   "absence of panics in the real code are only exercised (fuzzing is not a proof). The clause about other "
+                   "outstanding requests is proved in the session model (C05) and exercised here by the 3-request scenario.",
+        rule="mutants of valid replies (4 reply kinds) and hellos: exhaustive truncation of one seed per kind, random "
+             "compositions of 12 mutation operators; 3-request scenario with one reply replaced by garbage in random "
+             "delivery order; a case is distinct by its bytes",
+        trusted=["quick-xml tokeniser (byte-level robustness only exercised)"],
+    ),
 }
